@@ -239,22 +239,23 @@ def _geo_traps(geo: Geo, pm, fillable, labels):
 TINY_AREA = 2.0**-11  # twice the observed engine threshold 2^-12
 
 
-def _tiny_contours_only(subs) -> bool:
-    """>= 2 subpaths and every subpath that encloses area on its own encloses less than TINY_AREA (absolute)."""
-    if len(subs) < 2:
-        return False
-    n_areal = 0
+def _tiny_contours_only(subs, rule) -> bool:
+    """Once every subpath that on its own encloses less than TINY_AREA (absolute) is taken away nothing is left that
+    paints under `rule`: the whole painted region lies in contours below the engine's threshold."""
+    rest, n_tiny = [], 0
     for sp in subs:
-        gs = Geo([sp])
-        if not len(gs.A):
-            continue
-        a = abs(gs.signed_area())
-        if gs.witness("nonzero") is None:
-            continue
-        n_areal += 1
-        if a >= TINY_AREA:
-            return False
-    return n_areal > 0
+        if _is_tiny_areal(sp):
+            n_tiny += 1
+        else:
+            rest.append(sp)
+    if not n_tiny:
+        return False
+    return Geo(rest).witness(rule) is None
+
+
+def _is_tiny_areal(sp) -> bool:
+    gs = Geo([sp])
+    return bool(len(gs.A)) and gs.witness("nonzero") is not None and abs(gs.signed_area()) < TINY_AREA
 
 
 def check_shape(case) -> Result:
@@ -310,11 +311,12 @@ def check_shape(case) -> Result:
         fill_traps = {"rule-sensitive", "signed-area-0", "small-area", "style-decides"}
         stroke_traps = {"zero-area-geometry", "flat-bbox", "style-decides"}
         r.nontrivial = bool(("fill" in claims and fill_traps & set(traps)) or ("stroke" in claims and stroke_traps & set(traps)))
-    if not got and claims == ["fill"] and not case.get("pinned") and _tiny_contours_only(subs):
+    if not got and claims == ["fill"] and not case.get("pinned") and _tiny_contours_only(subs, pm["rule"]):
         # neutraliser for known finding ENGINE-TINY-CONTOUR: skia-pathops simplify drops contours (triangles) of area
-        # < 2^-12 square user units when the path has more than one contour; counted, not judged
+        # < 2^-12 square user units whenever it does real work (second contour present, or a lone contour that is not
+        # convex / runs in the other direction); counted, not judged
         r.excluded = "ENGINE-TINY-CONTOUR"
-        r.classes += ("excluded:tiny-contours-in-multi-contour-path",)
+        r.classes += ("excluded:only-tiny-contours-paint",)
         return r
     if not got and claims:
         what = []
@@ -440,6 +442,18 @@ def check_subpaths(case) -> Result:
         stats["fill_in"] = int((i0 & trusted).sum())
         stats["fill_out"] = int((~i0 & trusted).sum())
         bad = trusted & (i0 != i1)
+        if bad.any() and not case.get("pinned"):
+            # neutraliser for known finding ENGINE-TINY-CONTOUR: every changed point lies inside a contour that on
+            # its own encloses less than TINY_AREA (the engine lost that contour)
+            in_tiny = np.zeros(len(P), dtype=bool)
+            for sp in subs0:
+                if _is_tiny_areal(sp):
+                    gt = Geo([sp])
+                    in_tiny |= geom.inside(P, gt.A, gt.B, "nonzero")
+            if not (bad & ~in_tiny).any():
+                r.excluded = "ENGINE-TINY-CONTOUR"
+                cl.append("excluded:only-tiny-contours-lost")
+                bad = np.zeros(len(P), dtype=bool)
         if bad.any():
             i = int(np.nonzero(bad)[0][0])
             r.bad("fill-region-changed", f"remove_empty_subpaths() of <path d={d!r} {_attrs(a, s)}> gave d={out_d!r}: {int(bad.sum())} points change fill membership under {rule}, e.g. ({P[i][0]!r},{P[i][1]!r}) inside before={bool(i0[i])} after={bool(i1[i])}")
@@ -533,7 +547,7 @@ def _d_attrs(text):
 
 
 SUBCHECKS = {
-    "shape": Sub("shape", check_shape, strategy=lambda ctx: c18_gen.shape_case(), examples={"quick": 1500, "thorough": 10000}),
-    "subpaths": Sub("subpaths", check_subpaths, strategy=lambda ctx: c18_gen.subpaths_case(), examples={"quick": 700, "thorough": 5000}),
-    "doc": Sub("doc", check_doc, strategy=lambda ctx: c18_gen.doc_case(), examples={"quick": 350, "thorough": 2500}, describe=lambda c: {"op": c["op"], "svg": c["svg"]}),
+    "shape": Sub("shape", check_shape, strategy=lambda ctx: c18_gen.shape_case(), examples={"quick": 1500, "thorough": 6000}),
+    "subpaths": Sub("subpaths", check_subpaths, strategy=lambda ctx: c18_gen.subpaths_case(), examples={"quick": 700, "thorough": 3000}),
+    "doc": Sub("doc", check_doc, strategy=lambda ctx: c18_gen.doc_case(), examples={"quick": 350, "thorough": 1500}, describe=lambda c: {"op": c["op"], "svg": c["svg"]}),
 }
